@@ -2,7 +2,9 @@ package checks
 
 import (
 	"fmt"
+	"google.golang.org/protobuf/reflect/protoreflect"
 	"math/big"
+	"sort"
 	"strings"
 
 	"github.com/verily-src/fhirpath-go/fhirpath/system"
@@ -264,6 +266,29 @@ func init() {
 					r.NontrivialByConstruction(int64(n * n * n))
 					r.Sample(core.W{"class": classNames[i], "values": n, "triples": n * n * n})
 				}},
+				{Name: "same-named-codes", N: len(c05CodeGroups()), Note: "bound codes whose enum values share a name across value sets but are different FHIR codes (ResourceType 'Patient' / ActionParticipantType 'patient', ...), all members of a group compared in one process: each equals its own code and differs from the others'", Run: func(i int, r *core.Rec) {
+					g := c05CodeGroups()[i]
+					for _, a := range g.members {
+						for _, b := range g.members {
+							want := tT
+							if a.code != b.code {
+								want = tF
+							}
+							env := map[string]any{"a": a.msg, "c": system.String(b.code)}
+							ge := obs3(lib.Run("%a = %c", nil, env))
+							gn := obs3(lib.Run("%a != %c", nil, env))
+							gr := obs3(lib.Run("%c = %a", nil, env))
+							r.Eval()
+							r.Eval()
+							r.Eval()
+							r.State("same-named-codes|" + want.String())
+							r.Nontrivial(g.name, a.typ, b.code, ge)
+							if ge != want.String() || gr != want.String() || gn != negTv(want).String() {
+								r.Fail(fmt.Sprintf("same-named-codes|=:%s(want %s)|!=:%s", ge, want, gn), core.W{"enum_value_name": g.name, "element": a.typ, "its_code": a.code, "compared_with": b.code, "=": ge, "reversed": gr, "!=": gn})
+							}
+						}
+					}
+				}},
 				{Name: "collections", N: len(colls), Note: fmt.Sprintf("all ordered pairs of collections of length 0..%d over 7 items x {=, !=}", maxLen), Run: func(i int, r *core.Rec) {
 					ca, va := collOf(items, colls[i].idx, colls[i].n)
 					ceq, cne := lib.Compile("%a = %b"), lib.Compile("%a != %b")
@@ -346,6 +371,61 @@ func init() {
 			}
 		},
 	})
+}
+
+type c05CodeMember struct {
+	typ, code string
+	msg       proto.Message
+}
+
+type c05CodeGroup struct {
+	name    string
+	members []c05CodeMember
+}
+
+var c05Groups []c05CodeGroup
+
+// c05CodeGroups: enum value names that stand for different FHIR codes in different value sets, with one element per such code
+func c05CodeGroups() []c05CodeGroup {
+	if c05Groups != nil {
+		return c05Groups
+	}
+	byName := map[string][]c05CodeMember{}
+	for _, mt := range c14CodeWrappers() {
+		vf := mt.Descriptor().Fields().ByName("value")
+		vals := vf.Enum().Values()
+		for k := 0; k < vals.Len(); k++ {
+			ev := vals.Get(k)
+			if ev.Number() == 0 {
+				continue
+			}
+			m := mt.New()
+			m.Set(vf, protoreflect.ValueOfEnum(ev.Number()))
+			byName[string(ev.Name())] = append(byName[string(ev.Name())], c05CodeMember{string(mt.Descriptor().FullName()), c18CodeOf(ev), m.Interface()})
+		}
+	}
+	var names []string
+	for n := range byName {
+		names = append(names, n)
+	}
+	sort.Strings(names)
+	for _, n := range names {
+		codes := map[string]bool{}
+		var ms []c05CodeMember
+		for _, m := range byName[n] {
+			if !codes[m.code] {
+				codes[m.code] = true
+				ms = append(ms, m) // one element per distinct code
+			}
+		}
+		if len(ms) >= 2 {
+			c05Groups = append(c05Groups, c05CodeGroup{n, ms})
+		}
+	}
+	if c05Groups == nil {
+		c05Groups = []c05CodeGroup{}
+	}
+	return c05Groups
 }
 
 func complexBefore(v []lib.Val, k int) bool {
